@@ -676,7 +676,10 @@ func vc01FramingCase(t interface{ Fatalf(string, ...any) }, st *vstat.Stats, f *
 	decoyMsg.Id = 0xdec0
 	decoyWire, _ := decoyMsg.Pack()
 	b64 := base64.RawURLEncoding.EncodeToString
-	getTarget, postTarget := PathDoH+"?dns="+b64(wire), PathDoH
+	getPath, gc := ref.DrawDoHPath(p.pick, "doh-get-path", PathDoH)
+	postPath, pc := ref.DrawDoHPath(p.pick, "doh-post-path", PathDoH)
+	classes = append(classes, gc, pc)
+	getTarget, postTarget := getPath+"?dns="+b64(wire), postPath
 	if p.decoy {
 		classes = append(classes, "doh-decoy-params")
 		getTarget += "&name=k0.decoy.test&type=AAAA&ct=" + url.QueryEscape(MimeTypeJSON) + "&do=1"
@@ -817,6 +820,8 @@ func vc01FramingCase(t interface{ Fatalf(string, ...any) }, st *vstat.Stats, f *
 	// documented parameter drawn independently of the wire query.
 	if c.Verdict == ref.VAccept && vc01PlainName(c.Req.Question[0].Name) {
 		j := ref.DrawJSONQuery(p.pick, c.Req.Question[0])
+		jsonPath, jpc := ref.DrawDoHPath(p.pick, "doh-json-path", PathJSON)
+		classes = append(classes, jpc)
 		method := p.jsonMethod
 		classes = append(append(classes, "json"), j.Classes...)
 		var jsonBody []byte
@@ -839,7 +844,7 @@ func vc01FramingCase(t interface{ Fatalf(string, ...any) }, st *vstat.Stats, f *
 				v.Set("ct", []string{MimeTypeJSON, "text/plain"}[p.pick("json-ct-other", 2)])
 			}
 
-			return PathJSON + "?" + v.Encode()
+			return jsonPath + "?" + v.Encode()
 		}
 
 		if j.Invalid {
@@ -899,7 +904,7 @@ func vc01FramingCase(t interface{ Fatalf(string, ...any) }, st *vstat.Stats, f *
 
 			// ... and compared with the answer to the equivalent wire-format query
 			// (same question, CD, DO, opt-in) sent as a DoH POST.
-			r, _ = f.http(http.MethodPost, PathDoH, jb)
+			r, _ = f.http(http.MethodPost, postPath, jb)
 			pfull, _, perr := ref.Judge(ref.DoH.Named("doh-post"), jc, r, ref.CheckOpts{})
 			if perr != nil {
 				fail("doh-post(json-equivalent)", perr)
@@ -933,6 +938,7 @@ func TestVerifC01Framing(t *testing.T) {
 		"doq:no-message", "doq:servfail-or-none", "doq-bad-prefix", "udp-oversize-query", "mixed-case-name", "max-length-name",
 		"near-miss", "near-miss-case", "near-miss-grow", "tcp-burst", "json-do-only", "json-sde-only", "json-cd-only", "json-do+sde",
 		"json-invalid-param", "json-type-default", "json-type-mnemonic", "json-vs-wire-compared",
+		"doh-path-canonical", "doh-path-trailing-slash", "doh-path-client-id", "doh-path-noncanonical",
 		"first-write-fails-unencodable", "first-write-fails-too-large-after-padding", "first-write-fails-transient", "kind-huge", "dot:huge-servfail", "tcp:huge-complete", "doh-decoy-params", "tcp-short-frame", "tcp-empty-frame", "doq-two-in-one", "doh-two-dns-params",
 		"root-name", "one-label-name", "query-size-511", "query-size-512", "query-size-513", "req-padding+keepalive", "doq:fallback-servfail")
 	st.Finish(t)
